@@ -3,12 +3,12 @@ package main
 // C09 — frames the decoder must reject are rejected.
 
 import (
-	"strings"
 	"fmt"
 	"go/token"
 	"go/types"
 	"math"
 	"sort"
+	"strings"
 
 	"golang.org/x/tools/go/ssa"
 )
